@@ -8,6 +8,11 @@ Init == e \in Eps /\ p \in Pas /\ l \in Laws /\ f \in Fixes /\ m \in Modes /\ cx
         \* first guess: near the truth, or with the position angle perpendicular to it (only meaningful, and only demanded to
         \* converge, for nearly round galaxies fitted with all parameters free)
         /\ st \in {s \in Starts : s = "perp" => (e <= 20 /\ f = "none" /\ m = "bilinear")}
+        \* frames whose outer isophotes cross the border are fitted with every integration mode but no fix flags; the large frame
+        \* (model images of large ellipses) with bilinear sampling and all parameters free
+        /\ (fr \in {"nearleft", "nearbottom"} => (f = "none" /\ m \in {"bilinear", "mean", "median"} /\ e <= 50))
+        /\ (fr = "large" => (f = "none" /\ m = "bilinear" /\ e <= 50 /\ st = "near"))
+        /\ (m \in {"mean", "median"} => f = "none")
 Observe == ~done /\ done' = TRUE /\ UNCHANGED <<e, p, l, f, m, cx, fr, st>>
            /\ (Emit => PrintT(<<"GEN", ToJson([eps |-> e, pa |-> p, law |-> l, fix |-> f, mode |-> m, centre |-> cx, frame |-> fr, start |-> st])>>))
 Spec == Init /\ [][Observe]_vars
